@@ -264,7 +264,7 @@ def connectCircuit (c other : Circuit) (thisC otherC : List Label) (right : Bool
   | .ok _ => match other.checkGatesExist otherC with
     | .error e => .error e
     | .ok _ =>
-      if (if right then !nodupL thisC else !nodupL otherC) then .error "CreateBlockError"
+      if (!nodupL otherC || (right && !nodupL thisC)) then .error "CreateBlockError"
       else if thisC.length != otherC.length then .error "CreateBlockError"
       else if (if right then thisC.any (fun l => ((c.find? l).map (·.ty)) != some INPUT)
                else otherC.any (fun l => ((other.find? l).map (·.ty)) != some INPUT))
